@@ -123,6 +123,27 @@ def check_thin(rep, sc, threads, rng, idx, tier):
             rep.mismatch({"module": "MapMachine", "field": d.split(":")[0], "kind": "thin"}, f"{describe(sc, kw)} threads={t}: {d}", case={"sc": sc, "idx": idx}, module="maps")
             return
         rep.validated()
+    # an integer layer mapped alone (no float layer to promote the buffer): uncovered pixels must still be masked
+    if idx % 3 == 0 and (ids == -1).any() and not all_masked:
+        rep.case(klass=("thin-int-only", idx % 211, nx, ny))
+        try:
+            q = call_map(dg, [dg.layer("level")], dict(kw, resolution=dict(kw["resolution"]) if isinstance(kw["resolution"], dict) else kw["resolution"]))
+            lm = np.ma.getmaskarray(q.layers[0]["data"])
+            lv = np.ma.getdata(q.layers[0]["data"])
+            for j in range(ny):
+                for i in range(nx):
+                    cand = table[j][i]
+                    allowed = [cand[0]] if cand[0] != -2 else cand[1:]
+                    if lm[j, i] and -1 not in allowed:
+                        raise AssertionError(f"mask: integer layer alone: pixel ({i},{j}) masked but lies in cell {allowed}")
+                    if not lm[j, i] and not any(k > 0 and lv[j, i] == 3 * k for k in allowed):
+                        raise AssertionError(f"mask: integer layer alone: pixel ({i},{j}) shows {lv[j, i]!r}, its sample point lies in {allowed} (-1 = no loaded cell: must be masked)")
+            rep.validated()
+        except AssertionError as e:
+            rep.mismatch({"module": "MapMachine", "field": "mask", "kind": "thin-int-only"}, f"{describe(sc, kw)}: {e}", case={"sc": sc, "idx": idx}, module="maps")
+            return
+        except RuntimeError:
+            pass
     for p in results[1:]:
         for a, b in zip(results[0].layers, p.layers):
             same = np.array_equal(np.ma.getmaskarray(a["data"]), np.ma.getmaskarray(b["data"])) and np.array_equal(np.ma.filled(a["data"], 0), np.ma.filled(b["data"], 0))
